@@ -146,6 +146,33 @@ func (c storedChooser) act(s, o int, path string, _ int) Act {
 func (c storedChooser) cut(s, o int, path string) bool  { return c.sc.Cuts[key(s, o, path)] }
 func (c storedChooser) nack(d, o int, path string) bool { return c.sc.Nacks[key(d, o, path)] }
 
+// rapid's integer generators are deliberately biased towards small values
+// (IntRange(0,99) < 20 holds for ~53% of the draws, SampledFrom picks the first
+// entries most of the time). Probabilities are therefore built from fair
+// coin flips; everything shrinks towards 0 = "nothing special happens".
+var u7gen = rapid.Custom(func(t *rapid.T) int {
+	v := 0
+	for i := 6; i >= 0; i-- {
+		if rapid.Bool().Draw(t, "bit") {
+			v |= 1 << i
+		}
+	}
+	return v
+})
+
+// chance is true with probability ~pct/100.
+func chance(t *rapid.T, label string, pct int) bool {
+	if pct <= 0 {
+		return false
+	}
+	return u7gen.Draw(t, label) >= 128-(pct*128+50)/100
+}
+
+// uniform returns a value in [0,n) (n <= 128), shrinking towards 0.
+func uniform(t *rapid.T, label string, n int) int {
+	return u7gen.Draw(t, label) * n / 128
+}
+
 var kindTable = func() []string {
 	w := []struct {
 		k string
@@ -176,7 +203,7 @@ func (c *genChooser) act(s, o int, path string, depth int) Act {
 	if a, ok := c.sc.Acts[k]; ok {
 		return a
 	}
-	kind := rapid.SampledFrom(kindTable).Draw(c.t, "kind "+k)
+	kind := kindTable[uniform(c.t, "kind "+k, len(kindTable))]
 	if kind == kSplit && (depth >= 2 || c.noSplit) {
 		// bound the piece tree: at most two levels of splitting (<= 9 pieces per origin)
 		kind = kPass
@@ -184,10 +211,10 @@ func (c *genChooser) act(s, o int, path string, depth int) Act {
 	a := Act{Kind: kind}
 	switch kind {
 	case kSplit:
-		a.N = rapid.IntRange(2, 3).Draw(c.t, "arity "+k)
+		a.N = 2 + uniform(c.t, "arity "+k, 2)
 		a.Ren = rapid.Bool().Draw(c.t, "rename "+k)
 	case kRepos:
-		a.Pos = rapid.SampledFrom([]string{"fresh", "fresh", "steal", "empty"}).Draw(c.t, "posmode "+k)
+		a.Pos = []string{"fresh", "fresh", "steal", "empty"}[uniform(c.t, "posmode "+k, 4)]
 	}
 	c.sc.Acts[k] = a
 	return a
@@ -202,7 +229,7 @@ func (c *genChooser) cut(s, o int, path string) bool {
 	if c.noCut || c.cutPct == 0 {
 		return false
 	}
-	if rapid.IntRange(0, 99).Draw(c.t, "cut "+k) < c.cutPct {
+	if chance(c.t, "cut "+k, c.cutPct) {
 		c.sc.Cuts[k] = true
 		return true
 	}
@@ -218,7 +245,7 @@ func (c *genChooser) nack(d, o int, path string) bool {
 	if c.nackPct == 0 {
 		return false
 	}
-	if rapid.IntRange(0, 99).Draw(c.t, "nack "+k) < c.nackPct {
+	if chance(c.t, "nack "+k, c.nackPct) {
 		c.sc.Nacks[k] = true
 		return true
 	}
@@ -260,9 +287,11 @@ type laneRes struct {
 	kinds       map[string]bool
 	split       bool
 	splitPre    bool
-	flagPartPre bool // a processor in front of the fan-out errors one piece of a run and splits or filters an earlier piece of it in the same call
-	filtInRun   bool // at the destination: the origin is a split run that still carries a filtered piece
-	nackedReq   int  // number of certainly delivered pieces the destination rejects
+	flagPartPre bool  // a processor in front of the fan-out errors one piece of a run and splits or filters an earlier piece of it in the same call
+	mixedPre    []int // processors in front of the fan-out that receive the run with a filtered AND a live piece
+	filtInRun   bool  // at the destination: the origin is a split run that still carries a filtered piece
+	nackedReq   int   // number of certainly delivered pieces the destination rejects
+	nackedAll   int   // ... including pieces that may or may not get there
 }
 
 type fate struct {
@@ -278,8 +307,10 @@ type fate struct {
 	SplitPre    bool
 	NackedAt    []bool // per destination: some certain piece is rejected there
 	FlagPartPre bool
-	FiltInRun   []bool // per destination: split run that reaches the destination with a filtered piece inside
-	NackedReq   []int  // per destination: number of certainly delivered pieces that are rejected
+	MixedPre    map[int]bool // pre-fan-out processor index -> the run arrives there with a filtered and a live piece
+	FiltInRun   []bool       // per destination: split run that reaches the destination with a filtered piece inside
+	NackedReq   []int        // per destination: number of certainly delivered pieces that are rejected
+	NackedAll   []int        // per destination: ... including optional pieces
 }
 
 type model struct {
@@ -342,6 +373,22 @@ func (m *model) laneWalk(o, b int) laneRes {
 						}
 					}
 				}
+			}
+		}
+		if split && pre {
+			nf, nl := 0, 0
+			for _, p := range pieces {
+				switch {
+				case p.filtered:
+					nf++
+				case !p.dead:
+					nl++
+				}
+			}
+			if nf > 0 && nl > 0 {
+				// a short return in front of (or inside) the run marks only the live pieces Retry:
+				// the filtered pieces stay in an Ack/Filter group of their own
+				res.mixedPre = append(res.mixedPre, s)
 			}
 		}
 		var next []*pc
@@ -456,6 +503,7 @@ func (m *model) laneWalk(o, b int) laneRes {
 				sig = origSig
 			}
 			res.cands = append(res.cands, cand{Task: sc.Dests[b].ID, Err: destNackText(b, o, p.path), Sig: sig})
+			res.nackedAll++
 			if !p.optional {
 				res.fail = true
 				res.nackedReq++
@@ -478,7 +526,7 @@ func reposValue(sc *Script, mode string, s, o int, path string) string {
 func evalModel(sc *Script, ch chooser) *model {
 	m := &model{sc: sc, ch: ch}
 	for o := 0; o < sc.N; o++ {
-		f := fate{DivCuts: map[string]bool{}, DivCutsPre: map[string]bool{}, Kinds: map[string]bool{}}
+		f := fate{DivCuts: map[string]bool{}, DivCutsPre: map[string]bool{}, Kinds: map[string]bool{}, MixedPre: map[int]bool{}}
 		fail := false
 		seenCut := map[string]bool{}
 		for b := range sc.Dests {
@@ -494,8 +542,12 @@ func evalModel(sc *Script, ch chooser) *model {
 			}
 			f.NackedAt = append(f.NackedAt, nackedHere && len(r.req) > 0)
 			f.FlagPartPre = f.FlagPartPre || r.flagPartPre
+			for _, s := range r.mixedPre {
+				f.MixedPre[s] = true
+			}
 			f.FiltInRun = append(f.FiltInRun, r.filtInRun)
 			f.NackedReq = append(f.NackedReq, r.nackedReq)
+			f.NackedAll = append(f.NackedAll, r.nackedAll)
 			for _, k := range r.cuts {
 				if !seenCut[k] {
 					seenCut[k] = true
@@ -542,42 +594,45 @@ type genOpts struct {
 
 func genScript(t *rapid.T, opts genOpts) (*Script, *model) {
 	sc := &Script{Acts: map[string]Act{}, Cuts: map[string]bool{}, Nacks: map[string]bool{}, DLQFail: map[string]bool{}, SinkFrom: -1}
-	sc.N = rapid.IntRange(1, 12).Draw(t, "n")
-	nd := rapid.SampledFrom([]int{1, 1, 1, 1, 2, 2, 2, 3, 3}).Draw(t, "dests")
+	sc.N = 1 + uniform(t, "n", 12)
+	nd := []int{1, 1, 1, 1, 2, 2, 2, 3, 3}[uniform(t, "dests", 9)]
 	for d := 0; d < nd; d++ {
-		ch := rapid.SliceOfN(rapid.IntRange(1, 5), 1, 4).Draw(t, "chunks "+strconv.Itoa(d))
+		ch := make([]int, 1+uniform(t, "nchunks "+strconv.Itoa(d), 3))
+		for i := range ch {
+			ch[i] = 1 + uniform(t, fmt.Sprintf("chunk %d %d", d, i), 5)
+		}
 		sc.Dests = append(sc.Dests, DestSpec{ID: "d" + strconv.Itoa(d), Chunks: ch})
 	}
-	np := rapid.IntRange(1, 3).Draw(t, "procs")
+	np := 1 + uniform(t, "procs", 3)
 	// placement: pre-fan-out processors first, then destination-level ones
 	places := make([]int, np)
 	for i := range places {
 		places[i] = -1
-		if nd > 1 && rapid.IntRange(0, 99).Draw(t, "inbranch "+strconv.Itoa(i)) < 40 {
-			places[i] = rapid.IntRange(0, nd-1).Draw(t, "branch "+strconv.Itoa(i))
+		if nd > 1 && chance(t, "inbranch "+strconv.Itoa(i), 40) {
+			places[i] = uniform(t, "branch "+strconv.Itoa(i), nd)
 		}
 	}
 	sort.SliceStable(places, func(i, j int) bool { return places[i] < places[j] })
 	for i, br := range places {
 		p := ProcSpec{ID: "p" + strconv.Itoa(i), Branch: br}
-		if rapid.IntRange(0, 99).Draw(t, "cond "+strconv.Itoa(i)) < 20 {
+		if chance(t, "cond "+strconv.Itoa(i), 20) {
 			p.Cond = true
 			p.Match = make([]bool, sc.N)
 			for o := range p.Match {
-				p.Match[o] = rapid.IntRange(0, 99).Draw(t, fmt.Sprintf("match %d %d", i, o)) < 65
+				p.Match[o] = !chance(t, fmt.Sprintf("nomatch %d %d", i, o), 35)
 			}
 		}
 		sc.Procs = append(sc.Procs, p)
 	}
-	if rapid.IntRange(0, 99).Draw(t, "sink") < 35 {
-		sc.SinkFrom = rapid.IntRange(0, len(sc.pre())).Draw(t, "sinkfrom")
+	if chance(t, "sink", 35) {
+		sc.SinkFrom = uniform(t, "sinkfrom", len(sc.pre())+1)
 	}
 	ch := &genChooser{t: t, sc: sc, cutSeen: map[string]bool{}, nackSeen: map[string]bool{}}
-	ch.cutPct = rapid.SampledFrom([]int{0, 6, 12, 25}).Draw(t, "cutpct")
-	ch.nackPct = rapid.SampledFrom([]int{0, 8, 15, 30}).Draw(t, "nackpct")
+	ch.cutPct = []int{0, 6, 12, 25}[uniform(t, "cutpct", 4)]
+	ch.nackPct = []int{0, 8, 15, 30}[uniform(t, "nackpct", 4)]
 	m := evalModel(sc, ch)
-	if rapid.IntRange(0, 99).Draw(t, "dlqfail") < 6 {
-		o := rapid.IntRange(0, sc.N-1).Draw(t, "dlqfail-o")
+	if chance(t, "dlqfail", 6) {
+		o := uniform(t, "dlqfail-o", sc.N)
 		sc.DLQFail[strconv.Itoa(o)] = true
 	}
 	return sc, m
